@@ -143,7 +143,7 @@ impl E2Run for ArpRes {
             }
             // resolutions: (machine, local ip, target ip, start delay, subnet?)
             let n_groups = 1 + sim::choose(4) as usize;
-            let mut plans: Vec<Vec<([u8; 4], [u8; 4], u64)>> = vec![vec![]; n_machines];
+            let mut plans: Vec<Vec<([u8; 4], [u8; 4], u64, Option<u64>)>> = vec![vec![]; n_machines];
             let mut subnets: Vec<Vec<([u8; 4], u32, [u8; 4])>> = vec![vec![]; n_machines];
             for _ in 0..n_groups {
                 let m = sim::choose(n_machines as u64) as usize;
@@ -156,7 +156,14 @@ impl E2Run for ArpRes {
                 let fanout = 1 + if sim::chance(1, 3) { sim::choose(8) } else { 0 };
                 let start = sim::choose(3) * sim::choose(300);
                 for _ in 0..fanout {
-                    plans[m].push((local, target, start));
+                    plans[m].push((local, target, start, None));
+                }
+                // fault: a resolver that is abandoned (its future dropped) part-way; the others,
+                // concurrent and later ones, must neither hang nor get a different answer
+                if sim::chance(1, 8) {
+                    let cancel_after = 1 + sim::choose(1500);
+                    plans[m].push((local, target, start.saturating_sub(sim::choose(2)), Some(cancel_after)));
+                    plans[m].push((local, target, start + 300 + sim::choose(2500), None));
                 }
                 if sim::chance(1, 3) && !subnets[m].iter().any(|(l, _, _)| *l == local) {
                     let bits = *[24u32, 16, 25].get(sim::choose(3) as usize).unwrap();
@@ -167,7 +174,7 @@ impl E2Run for ArpRes {
                     subnets[m].push((local, bits, gw));
                 }
             }
-            PLANNED.with(|p| p.set(plans.iter().map(|v| v.len() as u64).sum()));
+            PLANNED.with(|p| p.set(plans.iter().map(|v| v.iter().filter(|x| x.3.is_none()).count() as u64).sum()));
             for (m, pci) in pcis.into_iter().enumerate() {
                 let my_ips: Vec<[u8; 4]> = all_ips.iter().filter(|(o, _)| *o == m).map(|(_, ip)| *ip).collect();
                 let my_subnets = subnets[m].clone();
@@ -189,7 +196,7 @@ impl E2Run for ArpRes {
                     })
                     .script(move |ctx: Ctx| async move {
                         let subnets = subnets_of(&ctx);
-                        for (local, target, start) in plan {
+                        for (local, target, start, cancel_after) in plan {
                             let ctx = ctx.clone();
                             let res = res.clone();
                             let subnets = subnets.clone();
@@ -199,6 +206,16 @@ impl E2Run for ArpRes {
                                 }
                                 let arp = ctx.machine.protocol::<Arp>().unwrap();
                                 let start_ms = sim::now_ms();
+                                if let Some(c) = cancel_after {
+                                    let pair = AddressPair {
+                                        local: Ipv4Address::new(local),
+                                        remote: Ipv4Address::new(target),
+                                    };
+                                    if tokio::time::timeout(Duration::from_millis(c), arp.resolve(pair, 0, ctx.machine.clone())).await.is_err() {
+                                        sim::count("fault_resolver_cancelled");
+                                    }
+                                    return;
+                                }
                                 let r = arp
                                     .resolve(
                                         AddressPair {
